@@ -211,14 +211,15 @@ func popcount(x uint32) int {
 // Yield is a decision point of worker me: it may hand the turn to another worker and then parks
 // until the turn comes back. Returns the global step number of this decision point.
 func (s *Sched) Yield(me int) uint32 {
+	if s.ld(offDepth) > 0 {
+		// inside a critical section of dst or a loop over a map (instrumented builds only): never
+		// park a lock holder, and do not count statements whose number depends on map order
+		return s.ld(offStep)
+	}
 	step := s.ld(offStep) + 1
 	s.st(offStep, step)
 	alive := s.ld(offAlive)
 	next := me
-	if s.ld(offDepth) > 0 {
-		// inside a critical section of dst (instrumented builds only): never park a lock holder
-		return step
-	}
 	switch s.ld(offPolicy) {
 	case PolicyChangePoints:
 		i := s.ld(offCPNext)
